@@ -5,7 +5,7 @@ META = {
     "explanation": "Record order in finish_execution as dominance facts (RT1, RT2), who may write which index by receiver (VI1), "
                    "restore ordering/rollback (RS1, RS3, RS4), the recorded Version's provenance (VI6), no implicit commits (VI7), "
                    "column agreement (VI2) and the frozen inventory of filesystem-mutating call sites (DEL1). The task is told to write into the recorded directory: Conductor's COND_OUT overrides inherited values (RT3).",
-    "rules": ["RT1", "RT2", "SGc", "VI1", "RS1", "RS3", "RS4", "VI6", "VI7", "VI2", "DEL1", "RT3"],
+    "rules": ["RT1", "RT2", "SGc", "VI1", "RS1", "RS3", "RS4", "VI6", "VI7", "VI2", "DEL1", "RT3", "GC1", "GC2", "GC3", "GC4"],
     "assumptions": ["sqlite3: a row is durable only at commit; a killed process leaves the rolled-back state",
                     "`cond clean` killed midway and power-loss durability of file contents are outside the property's wording"],
     "trusted": ["ast parser", "SQL subset reader", "typed exception summaries"],
@@ -26,4 +26,6 @@ def run(A, rep, tier):
     V.rule_vi6(A, rep)
     V.rule_vi7(A, rep)
     V.rule_vi2(A, rep)
+    # the index never outlives its data: gc removes only what is not recorded
+    fs.rule_gc(A, rep)
     fs.rule_del1(A, rep)
